@@ -28,7 +28,7 @@ from typing import TYPE_CHECKING, Any, cast
 from bumble import hci, link, ll, lmp
 from bumble import link as bumble_link
 from bumble.colors import color
-from bumble.core import PhysicalTransport
+from bumble.core import InvalidArgumentError, PhysicalTransport
 
 if TYPE_CHECKING:
     from bumble.transport.common import TransportSink
@@ -1171,7 +1171,11 @@ class Controller:
                 )
             )
         else:
-            connection = None
+            # Forget the placeholder that was created when the connection was requested
+            if (
+                connection := self.classic_connections.get(peer_address)
+            ) and connection.handle == 0:
+                del self.classic_connections[peer_address]
             self.send_hci_packet(
                 hci.HCI_Connection_Complete_Event(
                     status=status,
@@ -1353,7 +1357,14 @@ class Controller:
 
         # Say that the connection is pending
         self._send_hci_command_status(hci.HCI_COMMAND_STATUS_PENDING, command.op_code)
-        future = self.send_lmp_packet(command.bd_addr, lmp.LmpHostConnectionReq())
+        try:
+            future = self.send_lmp_packet(command.bd_addr, lmp.LmpHostConnectionReq())
+        except InvalidArgumentError:
+            # Nobody answers at that address: conclude the procedure
+            self.on_classic_connection_complete(
+                command.bd_addr, hci.HCI_ErrorCode.PAGE_TIMEOUT_ERROR
+            )
+            return None
 
         def on_response(future: asyncio.Future[int]) -> None:
             self.on_classic_connection_complete(command.bd_addr, future.result())
